@@ -159,17 +159,14 @@ func c02Origins(a *An, df *DecodeFacts, tr *extracted, trCall *Visit, hctx *Ctx)
 		a.R.fail("anchor unresolved: string (name) operand of the translator call")
 		return
 	}
-	edges := []ssa.Value{nameArg}
-	if ph, ok := nameArg.(*ssa.Phi); ok {
-		edges = ph.Edges
-	}
+	nameEdges := valueEdges(hctx, nameArg, dnfTrue())
 	wdTbl, pathFld := "wd", "path"
 	if tf := findTables(a); tf != nil {
 		wdTbl = tf.wdTable.Name()
 		_, pathFld = tf.watchFields()
 	}
-	for _, e := range edges {
-		p := stripIDs(hctx.path(e))
+	for _, ne := range nameEdges {
+		p := stripIDs(ne.Ctx.path(ne.V))
 		// expected: <wdTable>[<record>.Wd].path  or that + "/" + trimmed bytes
 		okp := false
 		form := ""
